@@ -80,7 +80,7 @@ func (fn *Function) CallInternal(thread *Thread, args Tuple, kwargs []Tuple) (Va
 	// Spill indicated locals to cells.
 	// Each cell is a separate alloc to avoid spurious liveness.
 	for _, index := range f.Cells {
-		locals[index] = &cell{locals[index]}
+		locals[index] = &cell{v: locals[index]}
 	}
 
 	// TODO(adonovan): add static check that beneath this point
@@ -600,7 +600,14 @@ loop:
 			sp--
 
 		case compile.SETLOCALCELL:
-			locals[arg].(*cell).v = stack[sp-1]
+			c := locals[arg].(*cell)
+			if c.frozen {
+				// A closure over this variable has been frozen already:
+				// what it can reach changes now (see Function.Freeze).
+				c.frozen = false
+				freezeEpoch.Add(1)
+			}
+			c.v = stack[sp-1]
 			sp--
 
 		case compile.SETGLOBAL:
@@ -701,11 +708,17 @@ func (mandatory) Hash() (uint32, error) { return 0, nil }
 // Cells are always accessed using indirect {FREE,LOCAL,SETLOCAL}CELL instructions.
 // The FreeVars tuple contains only cells.
 // The FREE instruction always yields a cell.
-type cell struct{ v Value }
+type cell struct {
+	v      Value
+	frozen bool // Freeze has visited the cell since it was last assigned
+}
 
 func (c *cell) String() string { return "cell" }
 func (c *cell) Type() string   { return "cell" }
 func (c *cell) Freeze() {
+	if !c.frozen {
+		c.frozen = true
+	}
 	if c.v != nil {
 		c.v.Freeze()
 	}
